@@ -7,7 +7,7 @@
    GraphMLRoundTrip.roundtrip_hyps_satisfiable). *)
 From Coq Require Import List NArith ZArith Bool.
 From GV Require Import Base.Outcome Base.AMap Model.GState Model.Creation Model.Query Model.XmlEscape Model.GraphML.
-From GV Require Import Spec.GraphMLDef Proofs.EscapeOk Proofs.GraphMLOk Proofs.GraphMLRoundTrip.
+From GV Require Import Spec.GraphMLDef Proofs.EscapeOk Proofs.GraphMLOk Proofs.CreationNoPanic Proofs.CreationNodes Proofs.GraphMLRoundTrip.
 Import ListNotations.
 Open Scope N_scope.
 
@@ -42,8 +42,10 @@ Proof. exact roundtrip_elements. Qed.
      /\ map nname (get_all_nodes g') = map nname (get_all_nodes g) /\ directed (sp g') = directed (sp g)
      /\ Permutation (map bare_edge (get_all_edges g')) (map bare_edge (get_all_edges g)).
    PROVED PART: write-then-read equals the constructor applied to the graph's own node list, edge list and
-   specs.  MISSING: `rebuild' — the constructor applied to a well-formed graph's own content returns that
-   content (needs the WF invariant of Model/Creation.v); validated per generated graph (observation 30). *)
+   specs (below); the node-order and directedness clauses in full (C14_roundtrip_nodes_specs).
+   MISSING: the edge-multiset clause of `rebuild' — the constructor applied to a well-formed graph's own
+   edge list stores exactly that multiset (needs the full WF invariant of Model/Creation.v); validated per
+   generated graph (observation 30) and on the implementation by the round-trip oracle. *)
 Theorem C14_roundtrip_partial :
   forall (fmt : Z -> bytes) (parse : bytes -> option weight),
   (forall z, escape (fmt z) = fmt z) ->
@@ -53,3 +55,26 @@ Theorem C14_roundtrip_partial :
   new_from_nodes_and_edges bytes_eqb bytes_ltb
     (map bare_node (get_all_nodes g)) (map bare_edge (get_all_edges g)) (sp g).
 Proof. exact roundtrip_graph. Qed.
+
+(* same node names in the same order and the same specs (so the same directedness), for every graph
+   whose names are distinct and whose edges join its own nodes (two clauses of graphrs' well-formedness;
+   satisfiable: GraphMLRoundTrip.roundtrip_nonvacuous) *)
+Theorem C14_roundtrip_nodes_specs :
+  forall (fmt : Z -> bytes) (parse : bytes -> option weight),
+  (forall z, escape (fmt z) = fmt z) ->
+  (forall z, parse (fmt z) = Some (Some z)) ->
+  forall g g' : ggraph,
+  NoDup (map nname (get_all_nodes g)) ->
+  (forall e, In e (get_all_edges g) ->
+     In (eu e) (map nname (get_all_nodes g)) /\ In (ev e) (map nname (get_all_nodes g))) ->
+  read_events parse (write_events fmt g) (sp g) = Ok g' ->
+  map nname (get_all_nodes g') = map nname (get_all_nodes g) /\ sp g' = sp g.
+Proof. exact roundtrip_nodes_specs. Qed.
+
+(* reading back a written graph never panics *)
+Theorem C14_roundtrip_no_panic :
+  forall (fmt : Z -> bytes) (parse : bytes -> option weight),
+  (forall z, escape (fmt z) = fmt z) ->
+  (forall z, parse (fmt z) = Some (Some z)) ->
+  forall g : ggraph, is_panic (read_events parse (write_events fmt g) (sp g)) = false.
+Proof. exact roundtrip_no_panic. Qed.
